@@ -21,32 +21,15 @@ Init == /\ tid \in 1..Len(Traces)
         /\ mon = <<InitMon, InitMon>>
         /\ why = "ok" /\ dr = "ok"
 
-NoB == [cls |-> "OTHER", id |-> 0, btf |-> 0, a |-> FALSE, cc |-> 0]
-
 Step ==
   /\ l < Len(Traces[tid].ev)
-  /\ LET e  == Traces[tid].ev[l + 1]
-         i  == e.ts
-         j  == 3 - i
-         isBurst == e.op = "burst"
-         r  == IF isBurst THEN SlotStep(slots[i], tok, e.b) ELSE SlotEndAll(slots[i], tok)
-         m  == IF isBurst THEN MonStep(mon[i], e.b, e.out, e.post.slots[i].tx.type)
-               ELSE LET x == MonEvents(mon[i], e.out.ev, 1, NoB, Len(e.out.ev) + 5)
-                    IN <<[x[1] EXCEPT !.run = "None", !.deferred = HasEnded(e.out.ev) \/ @,
-                                      !.maxStream = IF e.out.stream > @ THEN e.out.stream ELSE @],
-                         IF e.out.outcome # "ok" THEN "NeverFails" ELSE x[2]>>
-         w  == IF m[2] # "ok" THEN m[2]
-               ELSE IF \E k \in 1..Len(e.obs) : e.obs[k] # e.out.ev THEN "ObserverIsolation"
-               ELSE IF e.post.slots[j] # slots[j] THEN "TimeslotsIndependent"
-               ELSE "ok"
-         d  == IF r.slot # e.post.slots[i] THEN "state"
-               ELSE IF r.tok # e.post.tok THEN "token"
-               ELSE IF r.out # e.out THEN "output" ELSE "ok"
+  /\ LET e == Traces[tid].ev[l + 1]
+         r == JudgeEvent(slots, tok, mon, e)
      IN /\ l' = l + 1 /\ tid' = tid
         /\ slots' = e.post.slots /\ tok' = e.post.tok
-        /\ mon' = [mon EXCEPT ![i] = m[1]]
-        /\ why' = IF why # "ok" THEN why ELSE w
-        /\ dr' = IF dr # "ok" THEN dr ELSE d
+        /\ mon' = r.mon
+        /\ why' = IF why # "ok" THEN why ELSE r.why
+        /\ dr' = IF dr # "ok" THEN dr ELSE r.dr
 
 Done == l = Len(Traces[tid].ev) /\ UNCHANGED vars
 Next == Step \/ Done
